@@ -598,6 +598,88 @@ pub fn gen_ctor(rng: &mut Rng) -> Ctor {
 
 /// A seeded history of at most 12 operations.
 pub fn gen_history(rng: &mut Rng, sc: &mut Scenario) {
+    // directed families first (same machinery, pinned choices): histories whose writes emit
+    // nothing, and histories that keep writing after the buffer is over-full
+    match rng.below(10) {
+        0 => {
+            let ctor = if rng.chance(1, 2) {
+                Ctor::New {
+                    vc: 0x21,
+                    afp: 0x00,
+                }
+            } else {
+                Ctor::WithAddresses {
+                    vc: 0x20,
+                    proto: rng.below(3) as u8,
+                    fam: if rng.chance(3, 4) { 0 } else { rng.range(1, 3) as u8 },
+                    fill: Fill {
+                        len: 0,
+                        seed: rng.next_u64(),
+                    },
+                }
+            };
+            let n = rng.range(1, 6);
+            let mut ops = Vec::new();
+            for _ in 0..n {
+                let empty = Fill {
+                    len: 0,
+                    seed: rng.next_u64(),
+                };
+                ops.push(match rng.below(9) {
+                    0 | 1 => BOp::SetLength(Some(*rng.pick(&[1u16, 3, 12, 258, 65535]))),
+                    2 => BOp::SetLength(None),
+                    3 => BOp::Write(Payload::Slice(empty)),
+                    4 => BOp::Batch(Vec::new()),
+                    5 => BOp::BatchLazy(Vec::new(), rng.below(4) as u8),
+                    6 => BOp::Write(Payload::Addr(0, empty)),
+                    7 => BOp::Write(Payload::SectionAdvanced(rng.below(2) as u8, empty)),
+                    _ => BOp::Reserve(rng.range(0, 64)),
+                });
+            }
+            sc.sub = "history_empty_writes".into();
+            sc.ctor = Some(ctor);
+            sc.ops = ops;
+            return;
+        }
+        1 => {
+            let ctor = gen_ctor(rng);
+            let mut ops = Vec::new();
+            if rng.chance(1, 2) {
+                ops.push(BOp::SetLength(Some(rng.below(65536) as u16)));
+            }
+            // fill the buffer past a full-size header (65551 bytes), or just short of it
+            let mut total = 0usize;
+            let goal = *rng.pick(&[65_500usize, 65_536, 65_552, 65_600, 70_000]);
+            while total < goal {
+                let l = (goal - total).min(*rng.pick(&[65_535usize, 40_000, 30_000, 20_000]));
+                ops.push(BOp::Write(Payload::Slice(Fill {
+                    len: l,
+                    seed: rng.next_u64(),
+                })));
+                total += l;
+            }
+            let k = rng.range(1, 3);
+            for _ in 0..k {
+                ops.push(match rng.below(4) {
+                    0 => BOp::Write(Payload::Type(rng.below(12) as u8)),
+                    1 => BOp::Batch(vec![Payload::Type(rng.below(12) as u8), gen_payload(rng, false)]),
+                    2 => BOp::Write(Payload::Slice(Fill {
+                        len: 0,
+                        seed: 1,
+                    })),
+                    _ => BOp::Write(gen_payload(rng, false)),
+                });
+            }
+            if rng.chance(2, 3) {
+                ops.push(BOp::SetLength(Some(rng.below(65536) as u16)));
+            }
+            sc.sub = "history_overfull".into();
+            sc.ctor = Some(ctor);
+            sc.ops = ops;
+            return;
+        }
+        _ => {}
+    }
     let ctor = gen_ctor(rng);
     let mut ops: Vec<BOp> = Vec::new();
     // how large this history gets: mostly small, sometimes around the 65535 boundary
